@@ -45,6 +45,8 @@ def gen_cases(rng, tier: str) -> list[dict]:
     exprs += common.expr_stream(rng, tier, common.sizes(tier, 80, 1500), depth_q=3, depth_t=5, names=("x", "y"))
     cases = []
     for origin, e in exprs:
+        if wire.size(e) > 150:
+            continue            # thirteen routes per case: very large inputs are exercised by C01-C05, C08
         vs = common.names_of(e)
         prior = None
         for p in common.points_for(rng, e, 2):
